@@ -138,8 +138,7 @@ def run(chk):
     bad, info = cq.run_cases("C08", IMPORTS, "ls_case", "ls_check", terms)
     chk.correspondence("linear_scoring (machines/arrays, single/list statistics, scalar/(C,D)/(T,C,D) offsets, normalisation, zero-frame guard) ~ LF.linear_scoring",
                        len(terms), bad, info)
-    chk.partial = ["score_is_derivative_partial: the derivative identity is proved for one feature and any number of components (Coquelicot); "
-                   "the multi-feature case is validated by central finite differences on the implementation"]
+    chk.partial = []
     return chk.finish(
         rule="UBMs C,D<=3; 1-3 models as machines / 3-D array / 2-D array; 1-3 test statistics as single object or list, 15% zero-frame; offsets scalar / (C,D) / "
              "(T,C,D); normalisation on/off; distinct = (models-as, stats-as, offset kind, norm, zero-frame present) | (derivative,C,D)")
